@@ -24,7 +24,7 @@ def model(check, scratch, quick, seed):
     d = scratch.sub('wrap-model')
     cfg = tlc.write_cfg(os.path.join(d, 'WrapMachine.cfg'), spec='Spec', constants=dict(Names=set('ab'), MaxNamed=2, Depth=2 if quick else 3),
                         invariants=['ChainSound', 'ReportedValid'])
-    r = tlc.run_tlc('WrapMachine', cfg, scratch, workers=tlc.NCPU, simulate='num=%d' % (100 if quick else 3000), depth=6, seed=seed + 1, timeout=2400, xmx='8g')
+    r = tlc.run_tlc('WrapMachine', cfg, scratch, workers=tlc.NCPU, simulate='num=%d' % (100 if quick else 400), depth=6, seed=seed + 1, timeout=2400, xmx='8g')
     check.add_model_run('WrapMachine(simulated stacks)', r)
     check.legs['WrapMachine(simulated stacks)']['mode'] = 'simulate'
     if r.invariants_violated:
